@@ -322,12 +322,14 @@ def check(prop, tier, seed, tlimit, jobs, keep=False):
     per_class = {}
     for v in sorted(viols, key=lambda v: v['index']):
         c = v['cls_name']
-        per_class.setdefault(c, 0)
         k = match_known(known, prop, c, v['msg'])
+        # one replay per known finding, three per class for anything else
+        key = ('known', k['match']) if k else c
+        per_class.setdefault(key, 0)
         limit = 1 if (k or v['cls'] >= 900 or FAST) else 3
-        if per_class[c] >= limit:
+        if per_class[key] >= limit:
             continue
-        per_class[c] += 1
+        per_class[key] += 1
         exe = v['exe']
         rp = os.path.join(ROOT, 'replays', '%s-%s-%d-%d.replay' % (prop, os.path.basename(exe), seed, v['index']))
         r = subprocess.run([exe, 'shrink', prop, str(seed), str(v['index']), rp] + (['--no-shrink'] if FAST else []),
@@ -351,6 +353,11 @@ def check(prop, tier, seed, tlimit, jobs, keep=False):
             reported.append(('violation', cls_name, msg, rp))
 
     n_viol = 0
+    met = set(r[2] for r in reported if r[0] == 'known')
+    for k in known:
+        # every listed finding of this property is announced, met in this batch or not
+        if k['property'] == prop and (k['what'] or k['match']) not in met:
+            print('KNOWN-FINDING: property=%s %s (class %s; not met in this batch)' % (prop, k['what'] or k['match'], k['class']))
     for kind, cls_name, msg, rp in reported:
         if kind == 'known':
             print('KNOWN-FINDING: property=%s %s (class %s, replay %s)' % (prop, msg, cls_name, rp))
